@@ -25,6 +25,15 @@ def consts(path):
     return out
 
 
+TECH = {
+    "C01": "exhaustive enumeration of splitter trees x lengths (State level) + Hypothesis-sampled end-to-end runs vs a reference splitter algebra",
+    "C02": "exhaustive enumeration of (splitter, lengths, combiner) + sampled end-to-end runs vs a reference partition; multiset law",
+    "C03": "property-based testing: generated workflow programs vs a nested-loop reference interpreter, failures minimised and bucketed by defect model",
+    "C04": "enumerated + generated nested containers vs an independent depth-n flattener",
+    "C05": "differential testing of rewritten (equivalent) splitter spellings + generated malformed requests with an execution log",
+    "C07": "differential hashing of one value spec across interpreters with different PYTHONHASHSEED, insertion orders, pickling, workers and cache roots",
+    "C08": "property-based testing of hashing laws (determinism, order-insensitivity, discrimination under one-aspect mutations, context-freedom) over a typed value grammar",
+}
 checks, na = [], []
 for p in props:
     pid = p["id"]
@@ -44,7 +53,7 @@ for p in props:
         level_claimed=dict(category=c["LEVEL"], text=c.get("LEVEL_TEXT", c["RULE"]),
                            design_ref=f"DESIGN.md §{c.get('DESIGN_REF', '5/' + pid)}"),
         level_note="; ".join(c.get("ASSUMPTIONS", [])) or "none beyond the harness itself",
-        technique=c.get("TECHNIQUE", "property-based testing: generated cases vs an independent reference model"),
+        technique=c.get("TECHNIQUE") or TECH.get(pid, "property-based testing: generated cases vs an independent reference model"),
     ))
 
 manifest = dict(
